@@ -792,7 +792,8 @@ def fuzz_stage(rep, work, name, constants, systems, states, opts="", every=1, ti
     out = work.path("req.%s.json" % tag)
     progress = work.path("req.%s.progress" % tag)
     cmd = [HARNESS, "fuzzreq", "--systems", ",".join(systems), "--states", ",".join(states), "--opts", opts,
-           "--seed", str(rep.seed), "--trace", trace, "--out", out, "--progress", progress, "--every", str(every)]
+           "--seed", str(rep.seed), "--trace", trace, "--out", out, "--progress", progress, "--every", str(every),
+           "--workers", "16"]
 
     def limit():
         resource.setrlimit(resource.RLIMIT_AS, (mem_gb << 30, mem_gb << 30))
@@ -814,19 +815,27 @@ def fuzz_stage(rep, work, name, constants, systems, states, opts="", every=1, ti
     os.makedirs(os.path.join(VERIF, "replays"), exist_ok=True)
     if rc != 0:
         # the process under test died: attribute to the request in flight and confirm in a fresh process
-        culprit = None
+        inflight = []
         try:
             with open(progress) as f:
-                culprit = json.loads(f.readline())
+                for line in f.read().replace("\x00", " ").split("\n"):
+                    line = line.strip()
+                    if line:
+                        try:
+                            inflight.append(json.loads(line))
+                        except ValueError:
+                            pass
         except Exception:
             pass
-        if culprit and ("fatal error" in err or "panic" in err or "signal" in err or rc < 0):
-            one = work.path("culprit.json")
-            with open(one, "w") as f:
-                json.dump(culprit, f)
-            p2 = subprocess.run([HARNESS, "fuzzreq", "--one", one, "--opts", opts, "--seed", str(rep.seed)],
-                                capture_output=True, text=True, preexec_fn=limit, timeout=300)
-            if p2.returncode != 0:
+        if inflight and ("fatal error" in err or "panic" in err or "signal" in err or rc < 0):
+            for culprit in inflight:
+                one = work.path("culprit.json")
+                with open(one, "w") as f:
+                    json.dump(culprit, f)
+                p2 = subprocess.run([HARNESS, "fuzzreq", "--one", one, "--opts", opts, "--seed", str(rep.seed)],
+                                    capture_output=True, text=True, preexec_fn=limit, timeout=300)
+                if p2.returncode == 0:
+                    continue
                 rp = os.path.join(VERIF, "replays", "C09-fatal-%s.json" % hashlib.sha1(json.dumps(culprit, sort_keys=True).encode()).hexdigest()[:16])
                 with open(rp, "w") as f:
                     json.dump({"request": culprit, "stderr": p2.stderr[-3000:]}, f, indent=1)
@@ -838,6 +847,25 @@ def fuzz_stage(rep, work, name, constants, systems, states, opts="", every=1, ti
                 else:
                     rep.violations.append((rp, desc))
                 return
+        with open(os.path.join(VERIF, ".work", "last_fuzz_stderr.txt"), "w") as f:
+            f.write("inflight parsed: %d\n" % len(inflight))
+            f.write(err)
+        frames = [l for l in err.splitlines() if "/repo/" in l][:3]
+        if ("fatal error" in err or "panic:" in err) and frames:
+            # the process died inside the code under test; no single in-flight request reproduces it on a
+            # fresh store (it needs the state earlier requests left), but the death itself is real behaviour
+            first = [l for l in err.splitlines() if "fatal error" in l or "panic:" in l][:1]
+            desc = "the whole process died (%s) in %s while serving one of: %s" % (
+                first[0] if first else "killed", frames[0].strip(), json.dumps([c.get("req") for c in inflight])[:600])
+            rp = os.path.join(VERIF, "replays", "C09-fatal-%s.txt" % hashlib.sha1(desc.encode()).hexdigest()[:16])
+            with open(rp, "w") as f:
+                f.write(desc + "\n\n" + err[:6000])
+            fid = classify(rep.prop, ",".join(systems), "Fatal", desc)
+            if fid:
+                rep.known[fid] = rep.known.get(fid, 0) + 1
+            else:
+                rep.violations.append((rp, desc))
+            return
         raise Infra("fuzzreq died (rc=%s) and the death could not be attributed/confirmed:\n%s" % (rc, err[-3000:]))
     if res is None or not res.ok:
         raise Infra("MC_Requests failed:\n" + ("\n".join(res.log[-20:]) if res else ""))
